@@ -97,11 +97,9 @@ Record Inv (s : st) : Prop := mkInv {
   i_req_pre : req s = true -> prefix (pre_req s) (hist s);
   i_done : fp s = Done -> prefix (pre_req s) (written s);
   i_drain_req : fp s = Drain \/ fp s = Done \/ (exists e, fp s = HoldD e) -> req s = true;
-  i_fl_req : req s = true <-> (fl s <> FNone /\ fl s <> FCalled);
-  i_ret_done : fl s = FReturned true -> fp s = Done;
+  i_fl_req : forall c, fl s c <> FNone -> fl s c <> FCalled -> req s = true;
+  i_ret_done : forall c, fl s c = FReturned true -> fp s = Done;
   i_retd : incl (retd s) (hist s);
-  i_pc1 : fl s = FCalled -> incl (pre_call s) (hist s);
-  i_pc2 : req s = true -> incl (pre_call s) (pre_req s);
   i_lt : forall e, In e (hist s) -> en e < sent s (eg e);
   i_sending : forall g e, lp s g = LSending e -> eg e = g /\ en e + 1 = cnt s g;
   i_sent : forall g e, lp s g = LSent e -> eg e = g /\ In e (hist s);
@@ -111,8 +109,7 @@ Record Inv (s : st) : Prop := mkInv {
 Lemma Inv_init : Inv init.
 Proof.
   constructor; cbn; intros; try discriminate; try contradiction; try reflexivity; try (intros ? []); try exact I.
-  - destruct H as [H | [H | [e H]]]; discriminate.
-  - split; [discriminate | intros [H _]; now contradiction H].
+  destruct H as [H | [H | [e H]]]; discriminate.
 Qed.
 
 Lemma take_inv s e p nx s' :
@@ -122,7 +119,7 @@ Proof.
   destruct (q s) as [|e' r] eqn:Q. { destruct (fp s); discriminate. }
   destruct (_ && _) eqn:C in Hs; [|discriminate]. inversion Hs; subst s'; clear Hs.
   apply andb_true_iff in C. destruct C as [Cp Ce]. apply entry_eqb_eq in Ce. subst e'.
-  destruct I as [H1 H2 H3 H4 H5 H6 H7 H8 H9 H10 H11 H12 H13]. rewrite Q in H1.
+  destruct I as [H1 H2 H3 H4 H5 H6 H7 H10 H11 H12 H13]. rewrite Q in H1.
   assert (HP : heldp (fp s) = []) by (destruct (fp s), p; try discriminate; reflexivity). rewrite HP in H1. cbn in H1.
   assert (HN : heldp nx = [e]) by (destruct Hnx as [-> | [-> _]]; reflexivity).
   constructor; cbn; auto.
@@ -130,18 +127,18 @@ Proof.
   - destruct Hnx as [-> | [-> _]]; discriminate.
   - intros [E | [E | [x E]]]; try (destruct Hnx as [-> | [-> _]]; discriminate).
     destruct Hnx as [-> | [_ ->]]; [discriminate|]. apply H4. left. destruct (fp s); try discriminate. reflexivity.
-  - intros F. specialize (H6 F). rewrite H6 in Cp. destruct p; discriminate.
+  - intros c F. specialize (H6 c F). rewrite H6 in Cp. destruct p; discriminate.
 Qed.
 
 Lemma write_inv cap s e s' : Inv s -> step cap s (Write e) = Some s' -> Inv s'.
 Proof.
   intros I Hs. unfold step, gstep in Hs.
-  destruct I as [H1 H2 H3 H4 H5 H6 H7 H8 H9 H10 H11 H12 H13].
+  destruct I as [H1 H2 H3 H4 H5 H6 H7 H10 H11 H12 H13].
   destruct (fp s) as [| | | |e'|e'] eqn:P; try discriminate; (destruct (entry_eqb e e') eqn:C; [|discriminate]);
     apply entry_eqb_eq in C; subst e'; inversion Hs; subst s'; clear Hs; cbn in H1; constructor; cbn; auto; try discriminate.
   all: try (rewrite H1, <- app_assoc; reflexivity).
   all: try (intros [X | [X | [x X]]]; discriminate).
-  all: try (intros X; specialize (H6 X); discriminate).
+  all: try (intros c X; specialize (H6 c X); discriminate).
   intros _. apply H4. right. right. now exists e.
 Qed.
 
@@ -156,7 +153,7 @@ Proof.
   - (* LogCall *)
     destruct (lp s (eg e)) eqn:L; try discriminate. destruct (en e =? cnt s (eg e)) eqn:C; [|discriminate].
     apply N.eqb_eq in C. inversion Hs; subst s'; clear Hs.
-    destruct I as [H1 H2 H3 H4 H5 H6 H7 H8 H9 H10 H11 H12 H13]. constructor; cbn; auto.
+    destruct I as [H1 H2 H3 H4 H5 H6 H7 H10 H11 H12 H13]. constructor; cbn; auto.
     + intros x Hin. specialize (H10 x Hin). unfold sent in *. cbn. unfold upd.
       destruct (eg x =? eg e) eqn:E; [|exact H10]. apply N.eqb_eq in E. rewrite E, L in H10. lia.
     + intros g x. unfold upd. destruct (g =? eg e) eqn:E.
@@ -166,12 +163,11 @@ Proof.
   - (* Enq *)
     destruct (lp s g) eqn:L; try discriminate. destruct (N.of_nat (length (q s)) <? cap); [|discriminate].
     inversion Hs; subst s'; clear Hs.
-    destruct I as [H1 H2 H3 H4 H5 H6 H7 H8 H9 H10 H11 H12 H13]. destruct (H11 _ _ L) as [Eg En].
+    destruct I as [H1 H2 H3 H4 H5 H6 H7 H10 H11 H12 H13]. destruct (H11 _ _ L) as [Eg En].
     constructor; cbn; auto.
     + rewrite H1, <- !app_assoc. reflexivity.
     + intros R. apply prefix_app. auto.
     + intros x Hin. apply in_or_app. left. now apply H7.
-    + intros F x Hin. apply in_or_app. left. now apply H8.
     + intros x Hin. unfold sent in *. cbn. unfold upd. apply in_app_or in Hin. destruct Hin as [Hin | [<- | []]].
       * specialize (H10 x Hin). destruct (eg x =? g) eqn:E; [|exact H10]. apply N.eqb_eq in E. rewrite E, L in H10. rewrite E. lia.
       * rewrite Eg, N.eqb_refl. lia.
@@ -184,52 +180,46 @@ Proof.
   - (* LogRet *)
     destruct (lp s (eg e)) as [| |e'] eqn:L; try discriminate. destruct (entry_eqb e e') eqn:C; [|discriminate].
     apply entry_eqb_eq in C. subst e'. inversion Hs; subst s'; clear Hs.
-    destruct I as [H1 H2 H3 H4 H5 H6 H7 H8 H9 H10 H11 H12 H13]. constructor; cbn; auto.
+    destruct I as [H1 H2 H3 H4 H5 H6 H7 H10 H11 H12 H13]. constructor; cbn; auto.
     + intros x [<- | Hin]; [apply (H12 _ _ L) | now apply H7].
     + intros x Hin. specialize (H10 x Hin). unfold sent in *. cbn. unfold upd.
       destruct (eg x =? eg e) eqn:E; [|exact H10]. apply N.eqb_eq in E. rewrite E, L in H10. rewrite E. exact H10.
     + intros g x. unfold upd. destruct (g =? eg e) eqn:E; [discriminate | apply H11].
     + intros g x. unfold upd. destruct (g =? eg e) eqn:E; [discriminate | apply H12].
   - (* FlushCall *)
-    destruct I as [H1 H2 H3 H4 H5 H6 H7 H8 H9 H10 H11 H12 H13].
-    destruct (fl s) eqn:F; try discriminate; inversion Hs; subst s'; clear Hs; constructor; cbn; auto; try discriminate.
-    all: try (split; [intros R; apply H5 in R; destruct R; congruence | intros [? ?]; congruence]).
-    all: try (intros R; apply H5 in R; destruct R; congruence).
-    all: try (split; [intros _; split; discriminate | intros _; apply H5; split; discriminate]).
+    destruct I as [H1 H2 H3 H4 H5 H6 H7 H10 H11 H12 H13].
+    destruct (fl s c) eqn:F; try discriminate; inversion Hs; subst s'; clear Hs; constructor; cbn; auto.
+    all: intros c'; unfold upd; destruct (c' =? c) eqn:E; try (intros; congruence); first [apply H5 | apply H6].
   - (* Request *)
-    destruct I as [H1 H2 H3 H4 H5 H6 H7 H8 H9 H10 H11 H12 H13].
-    destruct (fl s) eqn:F; try discriminate; inversion Hs; subst s'; clear Hs.
-    + assert (R : req s = false). { destruct (req s) eqn:R; [|reflexivity]. exfalso. destruct (proj1 H5 eq_refl) as [_ X]. congruence. }
-      constructor; cbn; auto; try discriminate.
-      * intros _. apply prefix_refl.
-      * intros D. assert (X : req s = true) by (apply H4; right; now left). congruence.
-      * split; [intros _; split; discriminate | reflexivity].
-    + constructor; cbn; auto; try discriminate.
-      split; [intros _; split; discriminate | intros _; apply H5; split; discriminate].
+    destruct I as [H1 H2 H3 H4 H5 H6 H7 H10 H11 H12 H13].
+    destruct (fl s c) eqn:F; try discriminate; inversion Hs; subst s'; clear Hs. constructor; cbn; auto.
+    + intros _. destruct (req s) eqn:R; [auto | apply prefix_refl].
+    + intros D. destruct (req s) eqn:R; [auto|]. exfalso. assert (X : false = true) by (apply H4; right; now left). discriminate.
+    + intros c'. unfold upd. destruct (c' =? c); [discriminate | apply H6].
   - (* FlushRet *)
-    destruct I as [H1 H2 H3 H4 H5 H6 H7 H8 H9 H10 H11 H12 H13].
-    destruct (fl s) eqn:F; try discriminate; (destruct (negb done || _) eqn:C in Hs; [|discriminate]);
-      inversion Hs; subst s'; clear Hs; constructor; cbn; auto; try discriminate.
-    all: try (split; [intros _; split; discriminate | intros _; apply H5; split; discriminate]).
-    intros X. inversion X; subst done. cbn in C. destruct (fp s); try discriminate. reflexivity.
+    destruct I as [H1 H2 H3 H4 H5 H6 H7 H10 H11 H12 H13].
+    destruct (fl s c) eqn:F; try discriminate; (destruct (negb done || _) eqn:C in Hs; [|discriminate]);
+      inversion Hs; subst s'; clear Hs; constructor; cbn; auto.
+    + intros c'. unfold upd. destruct (c' =? c) eqn:E; [|apply H5]. intros _ _. apply (H5 c); rewrite F; discriminate.
+    + intros c'. unfold upd. destruct (c' =? c) eqn:E; [|apply H6]. intros X. inversion X; subst done. cbn in C.
+      destruct (fp s); try discriminate. reflexivity.
   - (* PollTake *) eapply take_inv; eauto.
   - (* PollEmpty *)
     destruct (fp s) eqn:P; try discriminate. destruct (q s) eqn:Q; try discriminate. inversion Hs; subst s'; clear Hs.
-    destruct I as [H1 H2 H3 H4 H5 H6 H7 H8 H9 H10 H11 H12 H13]. constructor; cbn; auto; try discriminate.
+    destruct I as [H1 H2 H3 H4 H5 H6 H7 H10 H11 H12 H13]. constructor; cbn; auto; try discriminate.
     + rewrite H1, P, Q. reflexivity.
     + intros [X | [X | [x X]]]; discriminate.
-    + intros X. specialize (H6 X). congruence.
+    + intros c X. specialize (H6 c X). congruence.
   - (* InnerTake *) eapply take_inv; eauto.
   - (* InnerSync *)
     destruct (fp s) eqn:P; try discriminate. destruct (req s) eqn:R; [|discriminate]. inversion Hs; subst s'; clear Hs.
-    destruct I as [H1 H2 H3 H4 H5 H6 H7 H8 H9 H10 H11 H12 H13]. constructor; cbn; auto; try discriminate.
+    destruct I as [H1 H2 H3 H4 H5 H6 H7 H10 H11 H12 H13]. constructor; cbn; auto; try discriminate.
     + rewrite H1, P. reflexivity.
-    + split; [intros _; apply H5; exact R | reflexivity].
-    + intros X. specialize (H6 X). congruence.
+    + intros c X. specialize (H6 c X). congruence.
   - (* DrainTake *) eapply take_inv; eauto.
   - (* DrainDone *)
     destruct (fp s) eqn:P; try discriminate. destruct (q s) eqn:Q; try discriminate. inversion Hs; subst s'; clear Hs.
-    destruct I as [H1 H2 H3 H4 H5 H6 H7 H8 H9 H10 H11 H12 H13]. rewrite P, Q in H1. cbn in H1. constructor; cbn; auto.
+    destruct I as [H1 H2 H3 H4 H5 H6 H7 H10 H11 H12 H13]. rewrite P, Q in H1. cbn in H1. constructor; cbn; auto.
     + intros _. rewrite app_nil_r in H1. rewrite <- H1. apply H2. apply H4. now left.
   - (* Write *) apply (write_inv cap s e s' I). exact Hs.
 Qed.
@@ -288,16 +278,34 @@ Proof.
     + eapply prefix_trans; eauto.
 Qed.
 
-(* FlushLogger is called once; what it has to wait for is fixed at the call *)
-Lemma step_pre_call cap s l s' : step cap s l = Some s' -> fl s <> FNone -> pre_call s' = pre_call s /\ fl s' <> FNone.
+(* before the first FlushLogger caller signals, nothing is requested; the first signal fixes what the flusher owes *)
+Definition is_request (l : label) : bool := match l with Request _ => true | _ => false end.
+Lemma step_no_request cap s l s' : step cap s l = Some s' -> is_request l = false -> req s' = req s /\ pre_req s' = pre_req s.
+Proof. intros Hs N. destruct l; try discriminate; crush_step Hs; auto. Qed.
+Lemma run_no_request cap ls : forall s s', run cap s ls = Some s' -> existsb is_request ls = false -> req s' = req s.
 Proof.
-  intros Hs. destruct l; crush_step Hs; intros F; split; auto; try congruence; try discriminate.
+  induction ls as [|l ls IH]; intros s s' Hr N; unfold run in *; cbn in Hr. { inversion Hr; subst. auto. }
+  destruct (gstep true cap s l) as [m|] eqn:E; [|discriminate]. cbn in N. apply orb_false_iff in N. destruct N as [N1 N2].
+  rewrite (IH _ _ Hr N2). apply (step_no_request _ _ _ _ E N1).
 Qed.
-Lemma run_pre_call cap ls : forall s s', run cap s ls = Some s' -> fl s <> FNone -> pre_call s' = pre_call s /\ fl s' <> FNone.
+Lemma step_first_request cap s l s' : step cap s l = Some s' -> req s = false -> req s' = true -> pre_req s' = hist s.
+Proof. intros Hs R R'. destruct l; unfold step, gstep, take in Hs; rewrite ?R in Hs; crush_step Hs; cbn in *; try congruence; reflexivity. Qed.
+Lemma step_pre_req cap s l s' : step cap s l = Some s' -> req s = true -> req s' = true /\ pre_req s' = pre_req s.
+Proof. intros Hs R. destruct l; unfold step, gstep, take in Hs; rewrite ?R in Hs; crush_step Hs; cbn in *; auto. Qed.
+(* whatever was enqueued while nothing was requested is part of what the first request fixes *)
+Lemma run_first_request cap ls : forall s s', run cap s ls = Some s' -> req s = false -> req s' = true -> prefix (hist s) (pre_req s').
 Proof.
-  induction ls as [|l ls IH]; intros s s' Hr F; unfold run in *; cbn in Hr. { inversion Hr; subst. auto. }
-  destruct (gstep true cap s l) as [m|] eqn:E; [|discriminate].
-  destruct (step_pre_call _ _ _ _ E F) as [P F']. destruct (IH _ _ Hr F') as [P' F'']. split; [congruence | assumption].
+  induction ls as [|l ls IH]; intros s s' Hr R R'; unfold run in *; cbn in Hr. { inversion Hr; subst. congruence. }
+  destruct (gstep true cap s l) as [m|] eqn:E; [|discriminate]. fold (step cap s l) in E.
+  destruct (step_ghost _ _ _ _ E) as (_ & _ & P).
+  destruct (req m) eqn:Rm.
+  - pose proof (step_first_request _ _ _ _ E R Rm) as X.
+    assert (Y : pre_req s' = pre_req m).
+    { clear -Hr Rm. revert m Rm Hr. induction ls as [|l ls IH]; intros m Rm Hr; cbn in Hr. { inversion Hr; subst; auto. }
+      destruct (gstep true cap m l) as [m'|] eqn:E; [|discriminate]. fold (step cap m l) in E.
+      destruct (step_pre_req _ _ _ _ E Rm) as [A B]. rewrite (IH _ A Hr). exact B. }
+    rewrite Y, X. apply prefix_refl.
+  - eapply prefix_trans; [exact P | apply (IH _ _ Hr Rm R')].
 Qed.
 
 (* once the flusher has acknowledged the flush it writes nothing more *)
@@ -354,46 +362,48 @@ Proof. intros H. destruct (run_ghost _ _ _ _ H) as (W & R & _). cbn in W, R. rew
 
 (* ---------- the property ---------- *)
 
-Lemma step_fl_none cap s l s' : step cap s l = Some s' -> fl s = FNone -> l <> FlushCall -> fl s' = FNone.
-Proof. intros Hs F Ne. destruct l; unfold step, gstep, take in Hs; rewrite ?F in Hs; crush_step Hs; auto; congruence. Qed.
-Lemma run_fl_none cap ls : forall s s', run cap s ls = Some s' -> fl s = FNone -> ~ In FlushCall ls -> fl s' = FNone.
-Proof.
-  induction ls as [|l ls IH]; intros s s' Hr F N. { inversion Hr; subst; auto. }
-  rewrite run_cons in Hr. destruct (step cap s l) as [m|] eqn:E; [|discriminate].
-  apply (IH m); auto; [|intros X; apply N; now right]. eapply step_fl_none; eauto. intros ->. apply N. now left.
-Qed.
-
-(* Completeness. FlushLogger is called (for the first time) after [l1]; a call of it returns, woken by the flusher's
-   acknowledgement, after [l2]. Every entry whose logging call returned during [l1] has been handed to its writer by then. *)
-Theorem flush_complete cap l1 l2 l3 s :
-  run cap init (l1 ++ FlushCall :: l2 ++ FlushRet true :: l3) = Some s -> ~ In FlushCall l1 ->
-  forall e, In e (rets_of l1) -> In e (writes_of (l1 ++ FlushCall :: l2)).
+(* Completeness. A FlushLogger call (of any caller c) is made after [l1], before any caller has signalled; a call (of any
+   caller c') returns, woken by the flusher's acknowledgement, after [l2]. Every entry whose logging call returned during
+   [l1] has been handed to its writer by then. Callers may be concurrent. *)
+Theorem flush_complete cap l1 c l2 c' l3 s :
+  run cap init (l1 ++ FlushCall c :: l2 ++ FlushRet c' true :: l3) = Some s -> existsb is_request l1 = false ->
+  forall e, In e (rets_of l1) -> In e (writes_of (l1 ++ FlushCall c :: l2)).
 Proof.
   intros H NF e He.
   destruct (run_split _ _ _ _ _ _ H) as (s1 & s1' & R1 & S1 & H').
   destruct (run_split _ _ _ _ _ _ H') as (s2 & s3 & R2 & S2 & _).
-  assert (R12 : run cap init (l1 ++ FlushCall :: l2) = Some s2).
+  assert (R12 : run cap init (l1 ++ FlushCall c :: l2) = Some s2).
   { rewrite run_app, R1, run_cons, S1. exact R2. }
   destruct (run_init_ghost _ _ _ R1) as [_ Rd]. destruct (run_init_ghost _ _ _ R12) as [Wr _].
-  pose proof (run_fl_none _ _ _ _ R1 eq_refl NF) as F0.
-  assert (PC : pre_call s1' = retd s1 /\ fl s1' <> FNone).
-  { unfold step, gstep in S1. rewrite F0 in S1. inversion S1; subst; cbn. split; [reflexivity | discriminate]. }
-  destruct PC as [PC F1]. destruct (run_pre_call _ _ _ _ R2 F1) as [PC2 _].
-  assert (X : (fl s2 = FRequested \/ fl s2 = FLRequested) /\ fp s2 = Done).
-  { unfold step, gstep in S2. destruct (fl s2); try discriminate; cbn in S2; destruct (fp s2); try discriminate; auto. }
-  destruct X as [F2 D2]. pose proof (reach_inv _ _ _ R12) as I.
-  assert (Rq : req s2 = true) by (apply (i_fl_req _ I); destruct F2 as [F2 | F2]; rewrite F2; split; discriminate).
-  rewrite <- Wr. apply (prefix_incl _ _ (i_done _ I D2)). apply (i_pc2 _ I Rq).
-  rewrite PC2, PC, Rd. apply in_rev in He. exact He.
+  assert (R0 : req s1 = false) by (rewrite (run_no_request _ _ _ _ R1 NF); reflexivity).
+  assert (X : fl s2 c' = FRequested /\ fp s2 = Done).
+  { unfold step, gstep in S2. destruct (fl s2 c'); try discriminate; cbn in S2; destruct (fp s2); try discriminate; auto. }
+  destruct X as [F2 D2]. pose proof (reach_inv _ _ _ R12) as I. pose proof (reach_inv _ _ _ R1) as I1.
+  assert (Rq : req s2 = true) by (apply (i_fl_req _ I c'); rewrite F2; discriminate).
+  assert (R1' : run cap s1 (FlushCall c :: l2) = Some s2) by (rewrite run_cons, S1; exact R2).
+  rewrite <- Wr. apply (prefix_incl _ _ (i_done _ I D2)). apply (prefix_incl _ _ (run_first_request _ _ _ _ R1' R0 Rq)).
+  apply (i_retd _ I1). rewrite Rd. apply in_rev in He. exact He.
+Qed.
+
+(* the general fact behind it: whatever was enqueued before the flusher's acknowledging step has been written *)
+Theorem all_before_ack_written cap l1 l2 s :
+  run cap init (l1 ++ DrainDone :: l2) = Some s -> forall e, In e (rets_of l1) -> In e (writes_of l1).
+Proof.
+  intros H e He. destruct (run_split _ _ _ _ _ _ H) as (s1 & s1' & R1 & S1 & _).
+  pose proof (reach_inv _ _ _ R1) as I. destruct (run_init_ghost _ _ _ R1) as [Wr Rd].
+  assert (X : heldp (fp s1) = [] /\ q s1 = []).
+  { unfold step, gstep in S1. destruct (fp s1); try discriminate. destruct (q s1); try discriminate. auto. }
+  destruct X as [Hh Hq]. pose proof (i_hist _ I) as Hi. rewrite Hh, Hq, app_nil_r in Hi. cbn in Hi.
+  rewrite <- Wr, <- Hi. apply (i_retd _ I). rewrite Rd. apply in_rev in He. exact He.
 Qed.
 
 (* ... and the flusher writes nothing after its acknowledgement *)
-Theorem no_write_after_ack cap l1 l3 s :
-  run cap init (l1 ++ FlushRet true :: l3) = Some s -> writes_of l3 = [].
+Theorem no_write_after_ack cap l1 c l3 s :
+  run cap init (l1 ++ FlushRet c true :: l3) = Some s -> writes_of l3 = [].
 Proof.
   intros H. destruct (run_split _ _ _ _ _ _ H) as (s2 & s3 & R2 & S2 & R3).
   assert (D : fp s3 = Done).
-  { unfold step, gstep in S2. destruct (fl s2); try discriminate; cbn in S2; destruct (fp s2) eqn:P; try discriminate;
+  { unfold step, gstep in S2. destruct (fl s2 c); try discriminate; cbn in S2; destruct (fp s2) eqn:P; try discriminate;
     inversion S2; subst; cbn; reflexivity. }
   apply (run_done _ _ _ _ R3 D).
 Qed.
@@ -573,6 +583,33 @@ Qed.
 Lemma hist_NoDup s : Inv s -> NoDup (hist s).
 Proof. intros I. apply ord_NoDup. apply (i_ord _ I). Qed.
 
+Lemma mem_N_true c l : mem_N c l = true <-> In c l.
+Proof.
+  unfold mem_N. rewrite existsb_exists. split.
+  - intros [x [H1 H2]]. apply N.eqb_eq in H2. now subst.
+  - intros H. exists c. split; [assumption | apply N.eqb_refl].
+Qed.
+
+(* FlushLogger callers: who has a call in progress; the first call of all is remembered; what returned before it is
+   owed by the first request *)
+Definition FlRel (s : st) (a : ast) : Prop :=
+  (forall c, In c (f_in (a_fl a)) <-> (fl s c = FCalled \/ fl s c = FRequested)) /\
+  (forall c, fl s c <> FNone -> f_first (a_fl a) <> None) /\
+  (req s = true -> f_first (a_fl a) <> None) /\
+  (forall f, f_first (a_fl a) = Some f ->
+     f < a_t a /\ forall x r, In (x, r) (a_ret a) -> r <= f -> req s = true -> In x (pre_req s)).
+
+Lemma FlRel_mono s a s' a' :
+  FlRel s a -> fl s' = fl s -> req s' = req s -> pre_req s' = pre_req s -> a_fl a' = a_fl a -> a_t a <= a_t a' ->
+  (forall x r, In (x, r) (a_ret a') -> In (x, r) (a_ret a) \/ a_t a <= r) -> FlRel s' a'.
+Proof.
+  intros (F1 & F2 & F3 & F4) Ef Er Ep Ea Et Sub. unfold FlRel. rewrite Ef, Er, Ep, Ea. repeat split; auto.
+  - apply F1.
+  - apply F1.
+  - destruct (F4 _ H). lia.
+  - intros x r Hin Hle R. destruct (F4 _ H) as [Hf Hp]. destruct (Sub _ _ Hin) as [Old | New]; [eauto | lia].
+Qed.
+
 Record Sim (s : st) (a : ast) : Prop := mkSim {
   r_fly : forall x, In x (a_fly a) <-> exists g, lp s g = LSending x \/ lp s g = LSent x;
   r_next : forall g, lookupN g (a_next a) = cnt s g;
@@ -581,13 +618,7 @@ Record Sim (s : st) (a : ast) : Prop := mkSim {
   r_ret : forall x r, In (x, r) (a_ret a) -> In x (pend s) /\ In x (retd s) /\ r < a_t a;
   r_fifo : forall l1 e l2, pend s = l1 ++ e :: l2 -> forall e1 c r1, In e1 l2 ->
            lookupE e (a_unw a) = Some c -> In (e1, r1) (a_ret a) -> c < r1;
-  r_fl : match fl s, a_fl a with
-         | FNone, ANone => True
-         | (FCalled | FRequested | FLCalled | FLRequested), ACalled f
-         | (FReturned _ | FLReturned _), ARet f =>
-             f < a_t a /\ forall x r, In (x, r) (a_ret a) -> r <= f -> In x (pre_call s)
-         | _, _ => False
-         end;
+  r_fl : FlRel s a;
   r_done : a_done a = true -> fp s = Done
 }.
 
@@ -596,6 +627,8 @@ Proof.
   constructor; cbn; try (intros; contradiction); try reflexivity; try exact I; try discriminate.
   - intros x. split; [contradiction | intros [g [H | H]]; discriminate].
   - intros x. split; [intros H; now contradiction H | intros [[] | [g H]]; discriminate].
+  - unfold FlRel; cbn. repeat split; try discriminate; try (intros; contradiction).
+    all: try (intros [H | H]; discriminate). all: try (intros c H; now contradiction H).
 Qed.
 
 Lemma snoc_decomp {A} (q : list A) e l1 e0 l2 :
@@ -614,10 +647,12 @@ Proof. intros I. pose proof (hist_NoDup _ I) as N. rewrite (pend_hist _ I) in N.
 (* a state change that leaves [pend] and everything the relation mentions alone, and does not reach Done *)
 Lemma sim_same_pend s a s' :
   Sim s a -> fp s <> Done -> pend s' = pend s -> lp s' = lp s -> cnt s' = cnt s -> retd s' = retd s -> fl s' = fl s ->
-  pre_call s' = pre_call s -> Sim s' a.
+  req s' = req s -> pre_req s' = pre_req s -> Sim s' a.
 Proof.
-  intros [S1 S2 S3 S4 S5 S6 S7 S8] ND Ep El Ec Er Ef Epc.
-  constructor; rewrite ?Ep, ?El, ?Ec, ?Er, ?Ef, ?Epc; auto. intros X. exfalso. auto.
+  intros [S1 S2 S3 S4 S5 S6 S7 S8] ND Ep El Ec Er Ef Erq Epr.
+  constructor; rewrite ?Ep, ?El, ?Ec, ?Er; auto.
+  - eapply FlRel_mono; eauto. lia.
+  - intros X. exfalso. auto.
 Qed.
 
 Lemma sim_write cap s a e s' :
@@ -626,10 +661,10 @@ Lemma sim_write cap s a e s' :
 Proof.
   intros I S Hs. unfold step, gstep in Hs.
   assert (X : pend s = e :: q s /\ fp s <> Done /\ pend s' = q s /\ lp s' = lp s /\ cnt s' = cnt s /\ retd s' = retd s /\
-              fl s' = fl s /\ pre_call s' = pre_call s /\ fp s' <> Done).
+              fl s' = fl s /\ req s' = req s /\ pre_req s' = pre_req s /\ fp s' <> Done).
   { unfold pend. destruct (fp s) as [| | | |e'|e'] eqn:P; try discriminate; (destruct (entry_eqb e e') eqn:C; [|discriminate]);
       apply entry_eqb_eq in C; subst e'; inversion Hs; subst s'; cbn; repeat split; discriminate. }
-  destruct X as (Q & ND & Q' & El & Ec & Er & Ef & Epc & ND'). clear Hs.
+  destruct X as (Q & ND & Q' & El & Ec & Er & Ef & Erq & Epr & ND'). clear Hs.
   destruct S as [S1 S2 S3 S4 S5 S6 S7 S8].
   assert (NQ : NoDup (e :: q s)). { rewrite <- Q. apply pend_NoDup; auto. }
   destruct (lookupE e (a_unw a)) as [c|] eqn:LE.
@@ -640,7 +675,7 @@ Proof.
     apply N.ltb_lt. destruct (S5 _ _ Hin) as (Hq & _ & _). rewrite Q in Hq. destruct Hq as [<- | Hq]; [rewrite entry_eqb_refl in E; discriminate|].
     apply (S6 [] e (q s) Q e1 c r1 Hq LE Hin). }
   unfold astep. rewrite LE, AD, FB. cbn. eexists. split; [reflexivity|].
-  constructor; cbn; rewrite ?Q', ?El, ?Ec, ?Er, ?Ef, ?Epc; auto.
+  constructor; cbn; rewrite ?Q', ?El, ?Ec, ?Er; auto.
   - intros x. rewrite lookupE_removeE. destruct (entry_eqb e x) eqn:E.
     + apply entry_eqb_eq in E. subst x. split; [intros H; now contradiction H|]. intros [Hin | [g L]]; exfalso.
       * inversion NQ; auto.
@@ -652,7 +687,7 @@ Proof.
   - intros l1 e0 l2 Hq e1 c0 r1 Hin1 L0 Hin. rewrite lookupE_removeE in L0. destruct (entry_eqb e e0); [discriminate|].
     apply In_removeE in Hin. destruct Hin as [Hin _].
     eapply (S6 (e :: l1) e0 l2); [| exact Hin1 | exact L0 | exact Hin]. rewrite Q, Hq. reflexivity.
-  - destruct (fl s), (a_fl a); auto; destruct S7 as [Hf Hp]; (split; [lia|]); intros x r0 Hin; apply In_removeE in Hin; destruct Hin as [Hin _]; eauto.
+  - eapply FlRel_mono; eauto; cbn; try lia. intros x r0 Hin. apply In_removeE in Hin. destruct Hin as [Hin _]. now left.
   - intros X. rewrite X in AD. discriminate.
 Qed.
 
@@ -712,7 +747,7 @@ Proof.
       destruct (lookupE e0 (a_unw a)) eqn:LX.
       * inversion L0; subst. eapply S6; eauto.
       * exfalso. apply (proj2 (S3 e0)); [left; rewrite Hq; apply in_or_app; right; now left | exact LX].
-    + destruct (fl s), (a_fl a); auto; destruct S7 as [Hf Hp]; (split; [lia | exact Hp]).
+    + eapply FlRel_mono; eauto; cbn; try lia; try (intros; now left).
   - (* Enq *)
     destruct (lp s g) eqn:L; try discriminate. destruct (N.of_nat (length (q s)) <? cap); [|discriminate].
     inversion Hs; subst s'; clear Hs.
@@ -765,53 +800,75 @@ Proof.
     + intros l1 e0 l2 Hq e1 c r1 Hin1 L0 Hin. destruct (lookupE e (a_unw a)) eqn:LX; [|eapply S6; eauto].
       apply in_app_or in Hin. destruct Hin as [Hin | [X | []]]; [eapply S6; eauto|]. inversion X; subst.
       apply lookupE_In in L0. apply (S4 _ _ L0).
-    + assert (Sub : forall x r, In (x, r) (match lookupE e (a_unw a) with Some _ => a_ret a ++ [(e, a_t a)] | None => a_ret a end) ->
-                      In (x, r) (a_ret a) \/ r = a_t a).
-      { intros x r Hin. destruct (lookupE e (a_unw a)); [|now left]. apply in_app_or in Hin. destruct Hin as [Hin | [X | []]]; [now left|]. inversion X. now right. }
-      destruct (fl s), (a_fl a); auto; destruct S7 as [Hf Hp]; (split; [lia|]); intros x r Hin Hle; apply Sub in Hin; (destruct Hin as [Hin | ->]; [eauto | lia]).
+    + eapply FlRel_mono; eauto; cbn; try lia. intros x r Hin.
+      destruct (lookupE e (a_unw a)); [|now left]. apply in_app_or in Hin. destruct Hin as [Hin | [X | []]]; [now left|].
+      inversion X. right. lia.
   - (* FlushCall *)
     destruct S as [S1 S2 S3 S4 S5 S6 S7 S8]; unfold pend in *.
-    assert (W : forall x c, In (x, c) (a_unw a) -> c < a_t a + 1) by (intros x c Hin; pose proof (S4 _ _ Hin); lia).
+    assert (W : forall x c, In (x, c) (a_unw a) -> c < a_t a + 1) by (intros x c0 Hin; pose proof (S4 _ _ Hin); lia).
     assert (Rr : forall x r, In (x, r) (a_ret a) -> In x (heldp (fp s) ++ q s) /\ In x (retd s) /\ r < a_t a + 1).
     { intros x r Hin. destruct (S5 _ _ Hin) as (A & B & C'). repeat split; auto. lia. }
-    destruct (fl s) eqn:F; try discriminate; inversion Hs; subst s'; clear Hs;
-      unfold astep; destruct (a_fl a) as [|f|f] eqn:AF; try contradiction;
-      (eexists; split; [reflexivity|]); constructor; unfold pend; cbn; auto.
-    + split; [lia|]. intros x r Hin _. apply (S5 _ _ Hin).
-    + destruct S7 as [Hf Hp]. split; [lia | exact Hp].
-    + destruct S7 as [Hf Hp]. split; [lia | exact Hp].
+    destruct S7 as (F1 & F2 & F3 & F4).
+    assert (FC : fl s c = FNone \/ exists b, fl s c = FReturned b) by (destruct (fl s c) as [| | |b]; try discriminate; [now left | right; now exists b]).
+    assert (NM : mem_N c (f_in (a_fl a)) = false).
+    { destruct (mem_N c (f_in (a_fl a))) eqn:M; [|reflexivity]. apply mem_N_true in M. apply F1 in M.
+      destruct FC as [X | [b X]]; rewrite X in M; destruct M; discriminate. }
+    assert (Hs' : s' = mk (q s) (fp s) (req s) (upd (fl s) c FCalled) (lp s) (cnt s) (hist s) (written s) (retd s) (pre_req s)).
+    { destruct FC as [X | [b X]]; rewrite X in Hs; inversion Hs; reflexivity. }
+    subst s'. clear Hs. unfold astep. rewrite NM. eexists. split; [reflexivity|]. constructor; unfold pend; cbn; auto.
+    unfold FlRel; cbn. repeat split.
+    + intros [<- | Hin]; [rewrite upd_same; now left|]. unfold upd. destruct (c0 =? c) eqn:E; [now left | now apply F1].
+    + unfold upd. destruct (c0 =? c) eqn:E; [apply N.eqb_eq in E; now left | intros H; right; now apply F1].
+    + intros c0 _. destruct (f_first (a_fl a)); discriminate.
+    + intros _. destruct (f_first (a_fl a)); discriminate.
+    + destruct (f_first (a_fl a)) as [f0|] eqn:FF; inversion H; subst; [destruct (F4 _ eq_refl); lia | lia].
+    + intros x r Hin Hle R. destruct (f_first (a_fl a)) as [f0|] eqn:FF; inversion H; subst.
+      * destruct (F4 _ eq_refl) as [_ Hp]. eauto.
+      * exfalso. now apply (F3 R).
   - (* Request *)
     destruct S as [S1 S2 S3 S4 S5 S6 S7 S8]; unfold pend in *.
-    destruct (fl s) eqn:F; try discriminate; inversion Hs; subst s'; clear Hs; constructor; unfold pend; cbn; auto.
+    destruct (fl s c) eqn:F; try discriminate; inversion Hs; subst s'; clear Hs. constructor; unfold pend; cbn; auto.
+    destruct S7 as (F1 & F2 & F3 & F4). unfold FlRel; cbn. repeat split.
+    + intros Hin. unfold upd. destruct (c0 =? c) eqn:E; [now right | now apply F1].
+    + unfold upd. destruct (c0 =? c) eqn:E; [apply N.eqb_eq in E; subst; intros _; apply F1; now left | apply F1].
+    + intros c0. unfold upd. destruct (c0 =? c) eqn:E; [intros _; apply (F2 c); rewrite F; discriminate | apply F2].
+    + intros _. apply (F2 c). rewrite F. discriminate.
+    + apply (F4 _ H).
+    + intros x r Hin Hle _. destruct (req s) eqn:R; [destruct (F4 _ H) as [_ Hp]; eauto|].
+      rewrite (i_hist _ I). apply in_or_app. right. apply (S5 _ _ Hin).
   - (* FlushRet *)
     destruct S as [S1 S2 S3 S4 S5 S6 S7 S8]; unfold pend in *.
-    assert (W : forall x c, In (x, c) (a_unw a) -> c < a_t a + 1) by (intros x c Hin; pose proof (S4 _ _ Hin); lia).
+    assert (W : forall x c, In (x, c) (a_unw a) -> c < a_t a + 1) by (intros x c0 Hin; pose proof (S4 _ _ Hin); lia).
     assert (Rr : forall x r, In (x, r) (a_ret a) -> In x (heldp (fp s) ++ q s) /\ In x (retd s) /\ r < a_t a + 1).
     { intros x r Hin. destruct (S5 _ _ Hin) as (A & B & C'). repeat split; auto. lia. }
-    assert (FR : fl s = FRequested \/ fl s = FLRequested) by (destruct (fl s); try discriminate; auto).
-    assert (Rq : req s = true) by (apply (i_fl_req _ I); destruct FR as [FR | FR]; rewrite FR; split; discriminate).
-    assert (AF : exists f, a_fl a = ACalled f /\ f < a_t a /\ forall x r, In (x, r) (a_ret a) -> r <= f -> In x (pre_call s)).
-    { destruct FR as [FR | FR]; rewrite FR in S7; destruct (a_fl a) as [|f|f]; try contradiction; exists f; destruct S7; auto. }
-    destruct AF as (f & AF & Hf & Hp).
-    assert (Hs' : (negb done || match fp s with Done => true | _ => false end) = true /\
-                  exists nfl, (nfl = FReturned done \/ nfl = FLReturned done) /\
-                  s' = mk (q s) (fp s) (req s) nfl (lp s) (cnt s) (hist s) (written s) (retd s) (pre_call s) (pre_req s)).
-    { destruct FR as [FR | FR]; rewrite FR in Hs; destruct (negb done || _) eqn:C in Hs; try discriminate;
-        inversion Hs; subst s'; (split; [exact C|]).
-      - exists (FReturned done). split; [now left | reflexivity].
-      - exists (FLReturned done). split; [now right | reflexivity]. }
-    destruct Hs' as (C & nfl & Hn & ->). clear Hs.
-    unfold astep. rewrite AF. destruct done.
+    destruct S7 as (F1 & F2 & F3 & F4).
+    destruct (fl s c) eqn:F; try discriminate. destruct (negb done || _) eqn:C in Hs; [|discriminate].
+    inversion Hs; subst s'; clear Hs.
+    assert (Rq : req s = true) by (apply (i_fl_req _ I c); rewrite F; discriminate).
+    assert (M : mem_N c (f_in (a_fl a)) = true) by (apply mem_N_true; apply F1; now right).
+    destruct (f_first (a_fl a)) as [f|] eqn:FF; [|exfalso; apply (F2 c); [rewrite F; discriminate | reflexivity]].
+    destruct (F4 _ eq_refl) as [Hf Hp].
+    assert (NewRel : forall dn, FlRel (mk (q s) (fp s) (req s) (upd (fl s) c (FReturned done)) (lp s) (cnt s) (hist s) (written s) (retd s) (pre_req s))
+                            (mkA (a_t a + 1) (a_fly a) (a_next a) (a_unw a) (a_ret a) (mkFl (Some f) (filter (fun x => negb (c =? x)) (f_in (a_fl a)))) dn)).
+    { intros dn. unfold FlRel; cbn. repeat split.
+      - intros Hin. apply filter_In in Hin. destruct Hin as [Hin Ne]. unfold upd. destruct (c0 =? c) eqn:E.
+        + apply N.eqb_eq in E. subst. rewrite N.eqb_refl in Ne. discriminate.
+        + now apply F1.
+      - unfold upd. destruct (c0 =? c) eqn:E; [intros [X | X]; discriminate|]. intros X. apply filter_In. split; [now apply F1|].
+        rewrite N.eqb_sym, E. reflexivity.
+      - discriminate.
+      - discriminate.
+      - inversion H; subst. lia.
+      - inversion H; subst. exact Hp. }
+    unfold astep. rewrite M, FF. destruct done.
     + cbn in C. destruct (fp s) eqn:P; try discriminate.
       assert (FB : forallb (fun p0 => f <? snd p0) (a_ret a) = true).
       { apply forallb_forall. intros [x r] Hin. cbn. apply N.ltb_lt. destruct (N.lt_ge_cases f r) as [Hlt | Hge]; [exact Hlt|]. exfalso.
-        pose proof (Hp _ _ Hin Hge) as PC. destruct (S5 _ _ Hin) as (Hq & _ & _).
-        pose proof (prefix_incl _ _ (i_done _ I P) _ (i_pc2 _ I Rq _ PC)) as Hw.
+        pose proof (Hp _ _ Hin Hge Rq) as PR. destruct (S5 _ _ Hin) as (Hq & _ & _).
+        pose proof (prefix_incl _ _ (i_done _ I P) _ PR) as Hw.
         pose proof (hist_NoDup _ I) as N. rewrite (i_hist _ I), P in N. eapply NoDup_app_disjoint; eauto. }
       rewrite FB. eexists. split; [reflexivity|]. constructor; unfold pend; cbn; auto.
-      destruct Hn as [-> | ->]; (split; [lia | exact Hp]).
     + eexists. split; [reflexivity|]. constructor; unfold pend; cbn; auto.
-      destruct Hn as [-> | ->]; (split; [lia | exact Hp]).
   - (* PollTake *) apply (sim_recv s a e Top (HoldT e) s' S Hs eq_refl).
   - (* PollEmpty *)
     destruct (fp s) eqn:P; try discriminate. destruct (q s) eqn:Q; try discriminate. inversion Hs; subst s'; clear Hs.
@@ -856,11 +913,11 @@ Definition e10 := mkE 1 0 0.
    and its select picks the request: the drain loop writes the entry before the acknowledgement *)
 Definition sched_fixed : list label :=
   [LogCall e00; Enq 0; LogRet e00; PollTake e00; Write e00; LogCall e10; PollEmpty; LogCall e01; Enq 0; Enq 1; LogRet e10; LogRet e01;
-   FlushCall; Request; InnerSync; DrainTake e01; Write e01; DrainTake e10; Write e10; DrainDone; FlushRet true].
-Example sched_fixed_runs : exists s, run 4 init sched_fixed = Some s /\ written s = [e00; e01; e10] /\ fl s = FReturned true /\ q s = [].
+   FlushCall 0; Request 0; InnerSync; DrainTake e01; Write e01; DrainTake e10; Write e10; DrainDone; FlushRet 0 true].
+Example sched_fixed_runs : exists s, run 4 init sched_fixed = Some s /\ written s = [e00; e01; e10] /\ fl s 0 = FReturned true /\ q s = [].
 Proof. eexists. vm_compute. repeat split. Qed.
 Example sched_fixed_instance :
-  exists l1 l2, sched_fixed = l1 ++ FlushCall :: l2 ++ FlushRet true :: [] /\ rets_of l1 = [e00; e10; e01].
+  exists l1 l2, sched_fixed = l1 ++ FlushCall 0 :: l2 ++ FlushRet 0 true :: [] /\ rets_of l1 = [e00; e10; e01].
 Proof. exists (firstn 12 sched_fixed), (firstn 7 (skipn 13 sched_fixed)). vm_compute. split; reflexivity. Qed.
 Example sched_fixed_accepted : accepts (visible sched_fixed) = true.
 Proof. vm_compute. reflexivity. Qed.
@@ -870,10 +927,10 @@ Proof. vm_compute. reflexivity. Qed.
    exactly that trace *)
 Definition sched_unfixed : list label :=
   [LogCall e00; Enq 0; LogRet e00; PollTake e00; Write e00; LogCall e10; PollEmpty; LogCall e01; Enq 0; Enq 1; LogRet e10; LogRet e01;
-   FlushCall; Request; InnerSync; FlushRet true].
+   FlushCall 0; Request 0; InnerSync; FlushRet 0 true].
 Example before_fix_loses_entries :
-  exists s, grun false 4 init sched_unfixed = Some s /\ fl s = FReturned true /\ written s = [e00] /\
-            pre_call s = [e01; e10; e00] /\ q s = [e01; e10].
+  exists s, grun false 4 init sched_unfixed = Some s /\ fl s 0 = FReturned true /\ written s = [e00] /\
+            retd s = [e01; e10; e00] /\ q s = [e01; e10].
 Proof. eexists. vm_compute. repeat split. Qed.
 Example before_fix_trace_rejected : accepts (visible sched_unfixed) = false.
 Proof. vm_compute. reflexivity. Qed.
@@ -895,9 +952,9 @@ Example rejects_invented : accepts [EWrite e00] = false.
 Proof. vm_compute. reflexivity. Qed.
 Example rejects_wrong_writer : accepts [ECall e00; ERet e00; EWrite (mkE 0 0 1)] = false.
 Proof. vm_compute. reflexivity. Qed.
-Example rejects_write_after_ack : accepts [ECall e00; EFlushCall; EFlushRet true; ERet e00; EWrite e00] = false.
+Example rejects_write_after_ack : accepts [ECall e00; EFlushCall 0; EFlushRet 0 true; ERet e00; EWrite e00] = false.
 Proof. vm_compute. reflexivity. Qed.
-Example accepts_timer_return_with_backlog : accepts [ECall e00; ERet e00; EFlushCall; EFlushRet false; EWrite e00] = true.
+Example accepts_timer_return_with_backlog : accepts [ECall e00; ERet e00; EFlushCall 0; EFlushRet 0 false; EWrite e00] = true.
 Proof. vm_compute. reflexivity. Qed.
 
 (* ---------- the constants of the tree the model and the harness rely on (regenerated on every run) ---------- *)
@@ -947,11 +1004,11 @@ Qed.
 
 (* an entry logged after the acknowledged flush is never handed to its writer, whatever follows: the flusher has
    returned. (In the code a later FlushLogger call returns at once, asyncDone being cancelled for good.) *)
-Theorem logged_after_ack_never_written cap l1 l3 s :
-  run cap init (l1 ++ FlushRet true :: l3) = Some s ->
-  forall e, In e (calls_of l3) -> ~ In e (writes_of (l1 ++ FlushRet true :: l3)).
+Theorem logged_after_ack_never_written cap l1 c l3 s :
+  run cap init (l1 ++ FlushRet c true :: l3) = Some s ->
+  forall e, In e (calls_of l3) -> ~ In e (writes_of (l1 ++ FlushRet c true :: l3)).
 Proof.
-  intros H e Hc Hw. pose proof (no_write_after_ack _ _ _ _ H) as W3.
+  intros H e Hc Hw. pose proof (no_write_after_ack _ _ _ _ _ H) as W3.
   rewrite writes_of_app in Hw. cbn [writes_of] in Hw. rewrite W3, app_nil_r in Hw.
   destruct (writes_of_split _ _ Hw) as (a & l & b & -> & Wl).
   rewrite <- app_assoc in H. cbn [app] in H.
@@ -962,8 +1019,8 @@ Proof.
   pose proof (proj1 (step_cnt _ _ _ _ S) (eg e)). lia.
 Qed.
 Example logged_after_ack_witness :
-  exists s, run 4 init [LogCall e00; Enq 0; LogRet e00; FlushCall; Request; PollTake e00; Write e00; PollEmpty; InnerSync; DrainDone;
-                        FlushRet true; LogCall e01; Enq 0; LogRet e01] = Some s
+  exists s, run 4 init [LogCall e00; Enq 0; LogRet e00; FlushCall 0; Request 0; PollTake e00; Write e00; PollEmpty; InnerSync; DrainDone;
+                        FlushRet 0 true; LogCall e01; Enq 0; LogRet e01] = Some s
             /\ fp s = Done /\ q s = [e01] /\ written s = [e00] /\ retd s = [e01; e00].
 Proof. eexists. vm_compute. repeat split. Qed.
 
@@ -989,8 +1046,7 @@ Proof.
   assert (E : q s = [] -> heldp (fp s) = [] -> pending s = 0%nat).
   { intros Q Hh. unfold pending. pose proof (i_req_pre _ I R) as P. rewrite (i_hist _ I), Q, Hh, !app_nil_r in P.
     apply prefix_length in P. lia. }
-  assert (F : fl s <> FCalled) by (apply (i_fl_req _ I); exact R).
-  destruct l; unfold step, gstep, take in Hs; unfold weight in *; destruct (fp s) eqn:P; cbn in Hs.
+  destruct l; unfold step, gstep, take in Hs; rewrite ?R in Hs; unfold weight in *; destruct (fp s) eqn:P; cbn in Hs.
   all: repeat match type of Hs with
        | context [match ?x with _ => _ end] => destruct x eqn:?; try discriminate
        | context [if ?x then _ else _] => destruct x eqn:?; try discriminate
@@ -1018,16 +1074,15 @@ Qed.
    Write per entry) suffice to hand every
    entry whose call had returned to its writer — however many entries other goroutines log meanwhile. (Whether that
    fits into FlushLogger's one second depends on the scheduler and on the writers: not modelled.) *)
-Theorem flush_bounded cap l1 l2 s1 s2 s :
-  run cap init l1 = Some s1 -> req s1 = false -> step cap s1 Request = Some s2 -> run cap s2 l2 = Some s ->
+Theorem flush_bounded cap l1 c l2 s1 s2 s :
+  run cap init l1 = Some s1 -> req s1 = false -> step cap s1 (Request c) = Some s2 -> run cap s2 l2 = Some s ->
   (2 * length (q s1) + 2 <= flusher_steps l2)%nat ->
-  forall e, In e (rets_of l1) -> In e (writes_of (l1 ++ Request :: l2)).
+  forall e, In e (rets_of l1) -> In e (writes_of (l1 ++ Request c :: l2)).
 Proof.
   intros R1 NR S2 R2 L e He.
   pose proof (reach_inv _ _ _ R1) as I1. pose proof (Inv_step _ _ _ _ I1 S2) as I2.
   assert (X : req s2 = true /\ pre_req s2 = hist s1 /\ written s2 = written s1 /\ fp s2 = fp s1 /\ q s2 = q s1).
-  { unfold step, gstep in S2. destruct (fl s1) eqn:F; try discriminate; inversion S2; subst; cbn; [repeat split|].
-    exfalso. assert (X : req s1 = true) by (apply (i_fl_req _ I1); rewrite F; split; discriminate). congruence. }
+  { unfold step, gstep in S2. destruct (fl s1 c) eqn:F; try discriminate. inversion S2; subst; cbn. rewrite NR. repeat split. }
   destruct X as (Rq & Pr & Wr & Fp & Qq).
   destruct (run_weight _ _ _ _ I2 Rq R2) as (P & W).
   assert (W2 : (weight s2 <= 2 * length (q s1) + 2)%nat).
@@ -1041,13 +1096,13 @@ Proof.
       destruct (step_weight _ _ _ _ I2 Rq E) as (_ & R' & _). apply (IH m R' (Inv_step _ _ _ _ I2 E) R2). }
   assert (PW : prefix (pre_req s) (written s)).
   { apply (prefix_of_shorter _ _ (hist s)); [apply (i_req_pre _ I Rs) | rewrite (i_hist _ I); now exists (heldp (fp s) ++ q s) | unfold pending in P0; lia]. }
-  assert (R12 : run cap init (l1 ++ Request :: l2) = Some s) by (rewrite run_app, R1, run_cons, S2; exact R2).
+  assert (R12 : run cap init (l1 ++ Request c :: l2) = Some s) by (rewrite run_app, R1, run_cons, S2; exact R2).
   destruct (run_init_ghost _ _ _ R12) as [<- _]. apply (prefix_incl _ _ PW). rewrite P, Pr.
   apply (i_retd _ I1). destruct (run_init_ghost _ _ _ R1) as [_ ->]. apply in_rev in He. exact He.
 Qed.
 
 Example flush_bounded_instance :
-  exists s1 s2 s, run 4 init (firstn 13 sched_fixed) = Some s1 /\ req s1 = false /\ step 4 s1 Request = Some s2 /\
+  exists s1 s2 s, run 4 init (firstn 13 sched_fixed) = Some s1 /\ req s1 = false /\ step 4 s1 (Request 0) = Some s2 /\
     run 4 s2 (skipn 14 sched_fixed) = Some s /\ length (q s1) = 2%nat /\ flusher_steps (skipn 14 sched_fixed) = 6%nat.
 Proof. do 3 eexists. vm_compute. repeat split. Qed.
 
@@ -1077,14 +1132,29 @@ Proof.
   - inversion H; subst. f_equal. eapply IH; eauto.
 Qed.
 
+Definition is_fcall (ev : event) : bool := match ev with EFlushCall _ => true | _ => false end.
+(* the first FlushLogger call of the trace, if any, is the one the machine remembers *)
+Definition fl_fact (p : list event) (o : option N) : Prop :=
+  match o with
+  | None => existsb is_fcall p = false
+  | Some t => exists p1 ev p2, p = p1 ++ ev :: p2 /\ is_fcall ev = true /\ t = N.of_nat (length p1) /\ existsb is_fcall p1 = false
+  end.
+
+Lemma first_split_unique {A} (P : A -> bool) a : forall x b a' x' b',
+  a ++ x :: b = a' ++ x' :: b' -> P x = true -> P x' = true -> existsb P a = false -> existsb P a' = false -> a = a'.
+Proof.
+  induction a as [|y a IH]; intros x b a' x' b' H Px Px' N1 N2; destruct a' as [|y' a'']; cbn in *.
+  - reflexivity.
+  - inversion H; subst. rewrite Px in N2. discriminate.
+  - inversion H; subst. rewrite Px' in N1. discriminate.
+  - inversion H; subst. apply orb_false_iff in N1, N2. destruct N1, N2. f_equal. eapply IH; eauto.
+Qed.
+
 Record AInv (p : list event) (a : ast) : Prop := mkAInv {
   v_t : a_t a = N.of_nat (length p);
   v_ret : forall p1 e p2, p = p1 ++ ERet e :: p2 -> In (EWrite e) p \/ In (e, N.of_nat (length p1)) (a_ret a);
   v_fly : forall e, In e (a_fly a) -> In (EWrite e) p \/ lookupE e (a_unw a) <> None;
-  v_fl : match a_fl a with
-         | ANone => ~ In EFlushCall p
-         | ACalled f | ARet f => exists p1 p2, p = p1 ++ EFlushCall :: p2 /\ f = N.of_nat (length p1) /\ ~ In EFlushCall p1
-         end;
+  v_fl : fl_fact p (f_first (a_fl a));
   v_unw_nw : forall e, lookupE e (a_unw a) <> None -> ~ In (EWrite e) p;
   v_called : forall e, In (ECall e) p -> en e < lookupN (eg e) (a_next a);
   v_written_called : forall e, In (EWrite e) p -> In (ECall e) p;
@@ -1121,24 +1191,18 @@ Proof.
   destruct (Sub _ _ W) as [S | S]; [now right | left; apply in_snoc; now right].
 Qed.
 
-Definition fl_fact (p : list event) (f : afl) : Prop :=
-  match f with
-  | ANone => ~ In EFlushCall p
-  | ACalled f | ARet f => exists p1 p2, p = p1 ++ EFlushCall :: p2 /\ f = N.of_nat (length p1) /\ ~ In EFlushCall p1
-  end.
-Lemma fl_ext (p : list event) ev (f : afl) : ev <> EFlushCall \/ f <> ANone -> fl_fact p f -> fl_fact (p ++ [ev]) f.
+Lemma fl_ext (p : list event) ev (o : option N) : is_fcall ev = false \/ o <> None -> fl_fact p o -> fl_fact (p ++ [ev]) o.
 Proof.
-  intros Ne. destruct f; cbn.
-  - intros H X. apply in_snoc in X. destruct X as [X | X]; [auto | destruct Ne; congruence].
-  - intros (p1 & p2 & -> & -> & N1). exists p1, (p2 ++ [ev]). repeat split; auto. rewrite <- app_assoc. reflexivity.
-  - intros (p1 & p2 & -> & -> & N1). exists p1, (p2 ++ [ev]). repeat split; auto. rewrite <- app_assoc. reflexivity.
+  intros Ne. destruct o as [t|]; cbn.
+  - intros (p1 & x & p2 & -> & Px & -> & N1). exists p1, x, (p2 ++ [ev]). repeat split; auto. rewrite <- app_assoc. reflexivity.
+  - intros H. rewrite existsb_app, H. cbn. destruct Ne as [-> | X]; [reflexivity | congruence].
 Qed.
 
 Lemma AInv_step p a ev a' : AInv p a -> astep a ev = Some a' -> AInv (p ++ [ev]) a'.
 Proof.
   intros [V1 V2 V3 V4 V5 V6 V7 V8 V9] Hs.
   assert (LEN : N.of_nat (length (p ++ [ev])) = a_t a + 1) by (rewrite app_length; cbn; lia).
-  destruct ev as [e | e | e | | b]; unfold astep in Hs.
+  destruct ev as [e | e | e | c | c b]; unfold astep in Hs.
   - (* ECall *)
     destruct (negb _ && _) eqn:C in Hs; [|discriminate]. inversion Hs; subst a'; clear Hs.
     apply andb_true_iff in C. destruct C as [_ C]. apply N.eqb_eq in C.
@@ -1149,7 +1213,7 @@ Proof.
       * right. rewrite lookupE_app. destruct (lookupE e (a_unw a)); [discriminate | rewrite entry_eqb_refl; discriminate].
       * destruct (V3 _ Hin) as [W | W]; [left; apply in_snoc; now left | right].
         rewrite lookupE_app. destruct (lookupE x (a_unw a)); [discriminate | contradiction].
-    + apply (fl_ext p _ (a_fl a)); [left; discriminate | exact V4].
+    + apply fl_ext; [left; reflexivity | exact V4].
     + intros x L X. apply in_snoc in X. destruct X as [X | X]; [|discriminate]. rewrite lookupE_app in L.
       destruct (lookupE x (a_unw a)) eqn:LX.
       * apply (V5 x); [rewrite LX; discriminate | exact X].
@@ -1174,7 +1238,7 @@ Proof.
       * destruct (V2 _ _ _ E) as [W | W]; [left; apply in_snoc; now left | right].
         destruct (lookupE e (a_unw a)); [apply in_snoc; now left | exact W].
     + intros x Hin. apply filter_In in Hin. destruct Hin as [Hin _]. destruct (V3 _ Hin) as [W | W]; [left; apply in_snoc; now left | now right].
-    + apply (fl_ext p _ (a_fl a)); [left; discriminate | exact V4].
+    + apply fl_ext; [left; reflexivity | exact V4].
     + intros x L X. apply in_snoc in X. destruct X as [X | X]; [|discriminate]. eapply V5; eauto.
     + intros x X. apply in_snoc in X. destruct X as [X | X]; [auto | discriminate].
     + intros x X. apply in_snoc in X. destruct X as [X | X]; [|discriminate]. apply in_snoc. left. auto.
@@ -1190,7 +1254,7 @@ Proof.
     + intros x Hin. destruct (entry_eqb e x) eqn:E.
       * apply entry_eqb_eq in E. subst. left. apply in_snoc. now right.
       * destruct (V3 _ Hin) as [W | W]; [left; apply in_snoc; now left | right]. rewrite lookupE_removeE, E. exact W.
-    + apply (fl_ext p _ (a_fl a)); [left; discriminate | exact V4].
+    + apply fl_ext; [left; reflexivity | exact V4].
     + intros x L X. rewrite lookupE_removeE in L. destruct (entry_eqb e x) eqn:E; [contradiction|].
       apply in_snoc in X. destruct X as [X | X]; [eapply V5; eauto|]. inversion X; subst. rewrite entry_eqb_refl in E. discriminate.
     + intros x X. apply in_snoc in X. destruct X as [X | X]; [auto | discriminate].
@@ -1200,34 +1264,33 @@ Proof.
       apply (stamp_ext p (EWrite e) (fun y => lookupE y (a_unw a))); auto.
     + intros x Hin. apply in_snoc. left. auto.
   - (* EFlushCall *)
-    assert (X : a_t a' = a_t a + 1 /\ a_fly a' = a_fly a /\ a_next a' = a_next a /\ a_unw a' = a_unw a /\ a_ret a' = a_ret a /\
-                fl_fact (p ++ [EFlushCall]) (a_fl a')).
-    { destruct (a_fl a) as [|f|f] eqn:F; try discriminate; inversion Hs; subst; cbn [a_t a_fly a_next a_unw a_ret a_fl]; repeat split.
-      - exists p, []. repeat split; auto.
-      - apply (fl_ext p EFlushCall (ACalled f)); [right; discriminate | exact V4]. }
-    destruct X as (X1 & X2 & X3 & X4 & X5 & X6). clear Hs.
-    constructor; rewrite ?X1, ?X2, ?X3, ?X4, ?X5; auto.
+    destruct (mem_N c (f_in (a_fl a))); [discriminate|]. inversion Hs; subst a'; clear Hs.
+    constructor; cbn; auto.
     + eapply ret_ext; eauto; discriminate.
     + intros x Hin. destruct (V3 _ Hin) as [W | W]; [left; apply in_snoc; now left | now right].
+    + destruct (f_first (a_fl a)) as [f|] eqn:FF.
+      * apply fl_ext; [right; discriminate | exact V4].
+      * cbn in V4. exists p, (EFlushCall c), []. repeat split; auto.
     + intros x L X. apply in_snoc in X. destruct X as [X | X]; [eapply V5; eauto | discriminate].
     + intros x X. apply in_snoc in X. destruct X as [X | X]; [auto | discriminate].
     + intros x X. apply in_snoc in X. destruct X as [X | X]; [|discriminate]. apply in_snoc. left. auto.
-    + apply (stamp_ext p EFlushCall (fun y => lookupE y (a_unw a))); auto.
+    + apply (stamp_ext p (EFlushCall c) (fun y => lookupE y (a_unw a))); auto.
     + intros x Hin. apply in_snoc. left. auto.
   - (* EFlushRet *)
     assert (X : a_t a' = a_t a + 1 /\ a_fly a' = a_fly a /\ a_next a' = a_next a /\ a_unw a' = a_unw a /\ a_ret a' = a_ret a /\
-                fl_fact (p ++ [EFlushRet b]) (a_fl a')).
-    { destruct (a_fl a) as [|f|f] eqn:F; try discriminate.
-      assert (FF : fl_fact (p ++ [EFlushRet b]) (ARet f)) by (apply (fl_ext p _ (ACalled f)); [left; discriminate | exact V4]).
-      destruct b; [destruct (forallb _ _); [|discriminate]|]; inversion Hs; subst; cbn [a_t a_fly a_next a_unw a_ret a_fl]; repeat split; exact FF. }
+                f_first (a_fl a') = f_first (a_fl a)).
+    { destruct (mem_N c (f_in (a_fl a))); [|discriminate].
+      destruct b; [destruct (f_first (a_fl a)); [|discriminate]; destruct (forallb _ _); [|discriminate]|];
+        inversion Hs; subst; cbn; repeat split. }
     destruct X as (X1 & X2 & X3 & X4 & X5 & X6). clear Hs.
-    constructor; rewrite ?X1, ?X2, ?X3, ?X4, ?X5; auto.
+    constructor; rewrite ?X1, ?X2, ?X3, ?X4, ?X5, ?X6; auto.
     + eapply ret_ext; eauto; discriminate.
     + intros x Hin. destruct (V3 _ Hin) as [W | W]; [left; apply in_snoc; now left | now right].
+    + apply fl_ext; [left; reflexivity | exact V4].
     + intros x L X. apply in_snoc in X. destruct X as [X | X]; [eapply V5; eauto | discriminate].
     + intros x X. apply in_snoc in X. destruct X as [X | X]; [auto | discriminate].
     + intros x X. apply in_snoc in X. destruct X as [X | X]; [|discriminate]. apply in_snoc. left. auto.
-    + apply (stamp_ext p (EFlushRet b) (fun y => lookupE y (a_unw a))); auto.
+    + apply (stamp_ext p (EFlushRet c b) (fun y => lookupE y (a_unw a))); auto.
     + intros x Hin. apply in_snoc. left. auto.
 Qed.
 
@@ -1276,20 +1339,21 @@ Proof.
 Qed.
 
 (* an accepted trace satisfies the property: completeness at the acknowledged return ... *)
-Theorem accepts_complete t1 t2 t3 :
-  accepts (t1 ++ EFlushCall :: t2 ++ EFlushRet true :: t3) = true -> ~ In EFlushCall t1 ->
-  forall e, In (ERet e) t1 -> In (EWrite e) (t1 ++ EFlushCall :: t2).
+Theorem accepts_complete t1 c t2 c' t3 :
+  accepts (t1 ++ EFlushCall c :: t2 ++ EFlushRet c' true :: t3) = true -> existsb is_fcall t1 = false ->
+  forall e, In (ERet e) t1 -> In (EWrite e) (t1 ++ EFlushCall c :: t2).
 Proof.
   intros H NF e He.
-  replace (t1 ++ EFlushCall :: t2 ++ EFlushRet true :: t3) with ((t1 ++ EFlushCall :: t2) ++ EFlushRet true :: t3) in H
+  replace (t1 ++ EFlushCall c :: t2 ++ EFlushRet c' true :: t3) with ((t1 ++ EFlushCall c :: t2) ++ EFlushRet c' true :: t3) in H
     by (rewrite <- app_assoc; reflexivity).
   destruct (accepts_at _ _ _ H) as (a & a' & V & _ & S).
   apply in_split in He. destruct He as (u & v & ->).
-  destruct (v_ret _ _ V u e (v ++ EFlushCall :: t2)) as [W | W]; [rewrite <- app_assoc; reflexivity | exact W |].
-  exfalso. unfold astep in S. pose proof (v_fl _ _ V) as F. destruct (a_fl a) as [|f|]; try discriminate.
+  destruct (v_ret _ _ V u e (v ++ EFlushCall c :: t2)) as [W | W]; [rewrite <- app_assoc; reflexivity | exact W |].
+  exfalso. unfold astep in S. pose proof (v_fl _ _ V) as F. destruct (mem_N c' (f_in (a_fl a))); [|discriminate].
+  destruct (f_first (a_fl a)) as [f|]; [|discriminate].
   destruct (forallb _ _) eqn:FB in S; [|discriminate]. rewrite forallb_forall in FB. specialize (FB _ W). cbn in FB.
-  apply N.ltb_lt in FB. destruct F as (p1 & p2 & E & -> & N1).
-  apply unique_split2 in E; auto. subst p1. rewrite app_length in FB. cbn in FB. lia.
+  apply N.ltb_lt in FB. destruct F as (p1 & x & p2 & E & Px & -> & N1).
+  apply (first_split_unique is_fcall) in E; auto. subst p1. rewrite app_length in FB. cbn in FB. lia.
 Qed.
 
 (* ... exactly once, and only what was submitted ... *)
@@ -1329,33 +1393,33 @@ Proof.
 Qed.
 
 Example accepts_complete_instance :
-  accepts ([ECall e00; ERet e00] ++ EFlushCall :: [EWrite e00] ++ EFlushRet true :: []) = true.
+  accepts ([ECall e00; ERet e00] ++ EFlushCall 0 :: [EWrite e00] ++ EFlushRet 0 true :: []) = true.
 Proof. vm_compute. reflexivity. Qed.
 
 (* ---------- a later FlushLogger call: the full-strength statement without "first call" is false of the code ---------- *)
 
-Definition flush_complete_any_call_statement : Prop := forall cap l1 l2 l3 s,
-  run cap init (l1 ++ FlushCall :: l2 ++ FlushRet true :: l3) = Some s ->
-  forall e, In e (rets_of l1) -> In e (writes_of (l1 ++ FlushCall :: l2)).
+Definition flush_complete_any_call_statement : Prop := forall cap l1 c l2 c' l3 s,
+  run cap init (l1 ++ FlushCall c :: l2 ++ FlushRet c' true :: l3) = Some s ->
+  forall e, In e (rets_of l1) -> In e (writes_of (l1 ++ FlushCall c :: l2)).
 
 Definition sched_second : list label :=
-  [LogCall e00; Enq 0; LogRet e00; FlushCall; Request; PollTake e00; Write e00; PollEmpty; InnerSync; DrainDone; FlushRet true;
+  [LogCall e00; Enq 0; LogRet e00; FlushCall 0; Request 0; PollTake e00; Write e00; PollEmpty; InnerSync; DrainDone; FlushRet 0 true;
    LogCall e01; Enq 0; LogRet e01].
 
 Theorem second_flush_refuted :
-  exists cap l1 l2 l3 e s,
-    run cap init (l1 ++ FlushCall :: l2 ++ FlushRet true :: l3) = Some s /\ In e (rets_of l1) /\
-    ~ In e (writes_of (l1 ++ FlushCall :: l2 ++ FlushRet true :: l3)) /\ q s = [e] /\ fl s = FLReturned true.
+  exists cap l1 c l2 l3 e s,
+    run cap init (l1 ++ FlushCall c :: l2 ++ FlushRet c true :: l3) = Some s /\ In e (rets_of l1) /\
+    ~ In e (writes_of (l1 ++ FlushCall c :: l2 ++ FlushRet c true :: l3)) /\ q s = [e] /\ fl s c = FReturned true.
 Proof.
-  exists 4, sched_second, [Request], [], e01. eexists.
+  exists 4, sched_second, 1, [Request 1], [], e01. eexists.
   split; [vm_compute; reflexivity|]. split; [vm_compute; auto|]. split; [|split; reflexivity].
   vm_compute. intros [H | []]. discriminate.
 Qed.
 
 Corollary flush_complete_any_call_refuted : ~ flush_complete_any_call_statement.
 Proof.
-  intros H. destruct second_flush_refuted as (cap & l1 & l2 & l3 & e & s & R & He & Nw & _).
-  apply Nw. specialize (H _ _ _ _ _ R e He).
+  intros H. destruct second_flush_refuted as (cap & l1 & c & l2 & l3 & e & s & R & He & Nw & _).
+  apply Nw. specialize (H _ _ _ _ _ _ _ R e He).
   rewrite writes_of_app in *. cbn [writes_of] in *. apply in_app_or in H. apply in_or_app.
   destruct H as [H | H]; [now left | right]. rewrite writes_of_app. apply in_or_app. now left.
 Qed.
@@ -1363,5 +1427,51 @@ Qed.
 (* the specification machine follows the model here too: the trace of that schedule is accepted (it is a behaviour of
    the code), and it is the direct monitor that reports it (known finding) *)
 Example second_flush_trace_accepted :
-  accepts (visible (sched_second ++ [FlushCall; Request; FlushRet true])) = true.
+  accepts (visible (sched_second ++ [FlushCall 0; Request 0; FlushRet 0 true])) = true.
 Proof. vm_compute. reflexivity. Qed.
+
+(* ---------- concurrent FlushLogger callers (Run's deferred call and CheckPanic in another goroutine, ...) ---------- *)
+
+(* two callers whose calls overlap; the second one calls before anybody has signalled: the completeness theorem applies to
+   it (and to the first), whichever of them signals first and whichever return comes first *)
+Definition sched_two_callers : list label :=
+  [LogCall e00; Enq 0; LogRet e00; FlushCall 0; LogCall e10; Enq 1; LogRet e10; FlushCall 1; Request 1; PollTake e00; Write e00;
+   Request 0; PollTake e10; Write e10; PollEmpty; InnerSync; DrainDone; FlushRet 0 true; FlushRet 1 true].
+Example two_callers_run : exists s, run 4 init sched_two_callers = Some s /\ written s = [e00; e10] /\
+  fl s 0 = FReturned true /\ fl s 1 = FReturned true.
+Proof. eexists. vm_compute. repeat split. Qed.
+Example two_callers_instance :
+  exists l1 l2 l3, sched_two_callers = l1 ++ FlushCall 1 :: l2 ++ FlushRet 0 true :: l3 /\
+                   existsb is_request l1 = false /\ rets_of l1 = [e00; e10].
+Proof. exists (firstn 7 sched_two_callers), (firstn 9 (skipn 8 sched_two_callers)), [FlushRet 1 true]. vm_compute. repeat split. Qed.
+Example two_callers_accepted : accepts (visible sched_two_callers) = true.
+Proof. vm_compute. reflexivity. Qed.
+(* a second caller returning on the acknowledgement while an entry returned before the first call is unwritten is rejected *)
+Example two_callers_lossy_rejected :
+  accepts [ECall e00; ERet e00; EFlushCall 0; EFlushCall 1; EFlushRet 1 true] = false.
+Proof. vm_compute. reflexivity. Qed.
+(* the same caller calling again after its call returned (the harness's "second" scenario) is a behaviour of the model *)
+Example same_caller_again_accepted :
+  accepts (visible (sched_second ++ [FlushCall 0; Request 0; FlushRet 0 true])) = true.
+Proof. vm_compute. reflexivity. Qed.
+
+(* the "first call" form of completeness: nobody has called FlushLogger during [l1] (hence nobody has signalled) *)
+Definition is_flushcall (l : label) : bool := match l with FlushCall _ => true | _ => false end.
+Lemma run_no_call_no_request cap ls : forall s s', run cap s ls = Some s' -> (forall c, fl s c = FNone) ->
+  existsb is_flushcall ls = false -> existsb is_request ls = false /\ (forall c, fl s' c = FNone).
+Proof.
+  induction ls as [|l ls IH]; intros s s' Hr F N. { inversion Hr; subst. auto. }
+  rewrite run_cons in Hr. destruct (step cap s l) as [m|] eqn:E; [|discriminate].
+  cbn in N. apply orb_false_iff in N. destruct N as [N1 N2].
+  assert (X : is_request l = false /\ (forall c, fl m c = FNone)).
+  { destruct l; try discriminate; unfold step, gstep, take in E; rewrite ?F in E; try discriminate; crush_step E; auto. }
+  destruct X as [X1 X2]. destruct (IH _ _ Hr X2 N2) as [A B]. split; [cbn; rewrite X1, A; reflexivity | exact B].
+Qed.
+Corollary flush_complete_first_call cap l1 c l2 c' l3 s :
+  run cap init (l1 ++ FlushCall c :: l2 ++ FlushRet c' true :: l3) = Some s -> existsb is_flushcall l1 = false ->
+  forall e, In e (rets_of l1) -> In e (writes_of (l1 ++ FlushCall c :: l2)).
+Proof.
+  intros H N. destruct (run_split _ _ _ _ _ _ H) as (s1 & _ & R1 & _ & _).
+  destruct (run_no_call_no_request _ _ _ _ R1 (fun _ => eq_refl) N) as [NR _].
+  eapply flush_complete; eauto.
+Qed.
